@@ -76,8 +76,8 @@ def extract(repo):
     a = _assigns(fn)
     sy = Sym({"line_.r_ohm_per_km": "r", "line_.x_ohm_per_km": "r", "l": "l", "p": "p", "vn": "vn", "sn_mva[i]": "sni",
               "line_.g_us_per_km": "g", "line_.c_nf_per_km": "c", "net.f_hz": "f", "np.pi": "pi"})
-    if _n(a["vn"]) != "net.bus.vn_kv.at[line_.from_bus]" or _n(a["p"]) != "parallel[idx]" or _n(a["l"]) != "length_km[idx]":
-        raise Untranslatable("replace_line_by_impedance: vn / p / l")
+    if _n(a["vn"]) != "net.bus.vn_kv.at[line_.from_bus]" or _n(a["p"]) != "line_.parallel" or _n(a["l"]) != "line_.length_km":
+        raise Untranslatable("replace_line_by_impedance: vn / p / l are not the values of the line itself")
     sy.env["Zni"] = sy.expr(a["Zni"])
     call = _kwargs(fn, "create_impedance")
     kw = {k.arg: k.value for k in call.keywords}
